@@ -1,6 +1,6 @@
 """C12 -- circuits built with normalised parameterisations are normalised (structural clauses)."""
 from ..core import Ctx, Ob, PropSpec
-from ..rules import names, r1, r3, r5, r13
+from ..rules import names, r1, r3, r5, r13, r11
 
 SOFT = ("SoftmaxParameter", "LogSoftmaxParameter", "MixingWeightParameter", "SigmoidParameter")
 
@@ -18,6 +18,8 @@ def run(ctx: Ctx) -> list[Ob]:
     obs += [o for o in r3.r3f(ctx, "params") if o.construct.endswith(tuple("Torch" + n for n in SOFT))]
     obs += r13.r13a(ctx, ['cirkit.templates.pgms.hmm'], require=2)
     obs += r13.r13c(ctx, 'cirkit.templates.pgms.hmm', {'input_layer_kwargs'})
+    obs += r11.r11d(ctx)
+    obs += [o for o in r11.r11c(ctx) if ':finite' in o.instance]
     return obs
 
 
@@ -30,12 +32,12 @@ SPEC = PropSpec(
         "softmax / log-softmax / mixing-weight / sigmoid nodes round-trip their axis through config (copies made for derived circuits "
         "keep it); R1b/R1c -- their compilation rules build the torch counterparts and forward axis -> dim; R3f -- the torch nodes keep "
         "dim in config (the folder re-instantiates them); R5a -- TorchSoftmaxParameter / TorchLogSoftmaxParameter apply the softmax "
-        "along dim + 1 (the fold axis shift). R13a / R13c on the hmm template (a normalised template with per-variable arguments): every per-variable table is read by variable id (index-space typing: ordering is position-indexed, per-variable arguments are variable-indexed), otherwise a variable is normalised over another variable's number of categories."
+        "along dim + 1 (the fold axis shift). R13a / R13c on the hmm template (a normalised template with per-variable arguments): every per-variable table is read by variable id (index-space typing: ordering is position-indexed, per-variable arguments are variable-indexed), otherwise a variable is normalised over another variable's number of categories. R11d / R11c: every hand-written stable exponential exp(x - max(..)) in the torch backend takes the maximum along an axis (never over the whole tensor) and the log-space reduce makes its shift finite -- otherwise normalised weights of very different scale, or log 0, evaluate to nan instead of a distribution."
     ),
     not_decided=(
         "Z == 1 itself, non-negativity and finiteness in log space (numerical); that every template wires the factories into every sum "
         "layer; normalisation of the input distributions; behaviour after training steps."
     ),
     run=run,
-    floors={"R13a": 2, "R13c": 2, "N1": 2, "R1c": 4, "R5a": 2, "R3a": 4},
+    floors={"R11d": 2, "R13a": 2, "R13c": 2, "N1": 2, "R1c": 4, "R5a": 2, "R3a": 4},
 )
